@@ -243,6 +243,13 @@ class Axis(Sequence[np.float64], Expression):
         Returns:
             Normalized NDArray.
         """
+        largest_component = np.max(np.abs(axis))
+        if largest_component == 0 or not np.isfinite(largest_component):
+            msg = "axis requires a non-zero vector with finite components"
+            raise ValueError(msg)
+        if not 1e-100 < largest_component < 1e100:
+            # Rescale first, such that the norm neither underflows nor overflows.
+            axis = axis / largest_component
         return axis / np.linalg.norm(axis)
 
     def __getitem__(self, index: int, /) -> np.float64:  # type:ignore[override]
